@@ -11,14 +11,15 @@ Import ListNotations.
 Open Scope N_scope.
 
 Definition alphabet : list event :=
-  [Send; UserCancel 0; UserCancel 1; SrvWrite (Reply 0 (RResult 5)); SrvWrite (Reply 1 (RError 7%Z));
-   ProcExit 1%Z TPartBody; ReaderRun; ServerExitTask; Stop].
+  [Send; UserCancel 0; SrvWrite (Reply 0 (RResult 5)); SrvWrite (Reply 1 (RError 7%Z));
+   SrvWrite (BadReply 0); ProcExit 1%Z TPartBody; ReaderRun; ServerExitTask; Stop].
 
 Definition conv_ok (c : config) (evs : list event) : bool :=
   if wf_conv evs then spec_ok (conv_expect evs) (observe (run c evs)) else true.
 
 Definition both_ok (evs : list event) : bool :=
-  conv_ok (repaired false false) evs && conv_ok (repaired true true) evs.
+  conv_ok (repaired HookOk false) evs && conv_ok (repaired HookRaises true) evs &&
+  conv_ok (repaired HookSlow false) evs && conv_ok (repaired HookAwaits true) evs.
 
 Fixpoint check (n : nat) (rev_prefix : list event) : bool :=
   both_ok (rev rev_prefix) &&
@@ -44,12 +45,15 @@ Lemma check_7 : check 7 [] = true.
 Proof. vm_compute. reflexivity. Qed.
 
 (* every conversation of at most 7 events over the alphabet: the model's final observation
-   satisfies the scan's expectations, whether or not the hooks raise *)
+   satisfies the scan's expectations, for each kind of server_exit hook *)
 Theorem conv_expect_sound_bounded : forall evs,
   (length evs <= 7)%nat -> Forall (fun e => In e alphabet) evs -> wf_conv evs = true ->
-  spec_ok (conv_expect evs) (observe (run (repaired false false) evs)) = true /\
-  spec_ok (conv_expect evs) (observe (run (repaired true true) evs)) = true.
+  spec_ok (conv_expect evs) (observe (run (repaired HookOk false) evs)) = true /\
+  spec_ok (conv_expect evs) (observe (run (repaired HookRaises true) evs)) = true /\
+  spec_ok (conv_expect evs) (observe (run (repaired HookSlow false) evs)) = true /\
+  spec_ok (conv_expect evs) (observe (run (repaired HookAwaits true) evs)) = true.
 Proof.
   intros evs L F W. pose proof (check_sound 7 [] check_7 evs L F) as H. cbn [rev app] in H.
-  unfold both_ok, conv_ok in H. rewrite W in H. apply andb_true_iff in H. exact H.
+  unfold both_ok, conv_ok in H. rewrite W in H. rewrite !andb_true_iff in H.
+  destruct H as (((A & B) & C) & D). auto.
 Qed.
